@@ -71,7 +71,7 @@ var ballast = make([]byte, 256<<20)
 func TestCheck(t *testing.T) {
 	vfw.Main(t, "C17", func(c *vfw.Ctx) {
 		c.Level("model_checking")
-		c.Rule("OUTBOUND (E2, real secs1 connection <-> scripted E4 peer that ACKs block by block): every encoded SECS-II body length 0..733 except 1 (no item encodes to 1 byte; 258 is a list of two binaries, every other length a binary item) x role {host, equipment} x device id {0,1,0x7FFF} in BOTH tiers; per (role, device, length) 3 messages rotating through the header grid stream {0,1,127} x function {0,1,255} x W (odd functions only) x system bytes {library-generated via SendDataMessage, 0xFFFFFFFF and 0x80017FFE via ForwardDataMessage}, and the WHOLE 39-message grid at the boundary lengths {0,2,3,243..246,257..259,487..490,731..733}; oracle: every transmission byte-identical to ref.e4.Split(header, ref.e5 encoding)[i].Marshal() (length byte, device id, R-bit of the role, stream, W, function, numbering 1..N, E-bit on the last only, system bytes equal in all blocks, checksum = 16-bit sum of header+data), data concatenate to the encoding, the send call returns nil exactly after the last ACK, BlockSendCount rises by N, nothing else on the line | " +
+		c.Rule("OUTBOUND (E2, real secs1 connection <-> scripted E4 peer that ACKs block by block): every encoded SECS-II body length 0..733 except 1 (no item encodes to 1 byte; 258 is a list of two binaries, every other length a binary item) x role {host, equipment} x device id {0,1,0x7FFF} in BOTH tiers; per (role, device, length) 3 messages rotating through the header grid stream {0,1,127} x function {0,1,255} x W (odd functions only) x system bytes {library-generated via SendDataMessage, 0xFFFFFFFF and 0x80017FFE via ForwardDataMessage}, and the WHOLE 39-message grid at the boundary lengths {0,2,3,243..246,257..259,487..490,731..733}; plus the size limit: a body of exactly 244*32767 bytes (32767 blocks, the largest block number) and one byte more (cannot be numbered in 15 bits: no block of it may reach the line; what the call returns and whether the link survives is observed, not demanded); oracle: every transmission byte-identical to ref.e4.Split(header, ref.e5 encoding)[i].Marshal() (length byte, device id, R-bit of the role, stream, W, function, numbering 1..N, E-bit on the last only, system bytes equal in all blocks, checksum = 16-bit sum of header+data), data concatenate to the encoding, the send call returns nil exactly after the last ACK, BlockSendCount rises by N, nothing else on the line | " +
 			"INBOUND-a (tree search on the real parseBlock+assembler.accept, injected clock): all histories of length D (quick 6, thorough 7) for the pairings equipment/1 s and host/4 s, length D-1 for the two other pairings, length D-2 for the 244-byte-block configuration over 14 symbols {valid next block, byte-identical retransmission of the previous transmission, skipped number n+1, previous number with E-bit, other stream / function / W / system bytes, other device id, wrong R-bit, block 0 with E, block 0 without E, block 1 of another message, T4 gap} x receiver role {host, equipment} x arrival spacing {1 s, 4 s; T4 = 10 s} x message sizes {2,1,3 | 3,2,1 blocks}; three oracles per step: exact = ref.e4.Receiver; sound = rule-free justification of every delivery (blocks 1..N or a single 0/1, same header, right device and direction, E on the last only, <= T4 apart, data concatenating to the body, delivered once); live = after every history a T4 gap and a clean message, which must be delivered | " +
 			"INBOUND-b (E2 tree, line level, scripted E4 peer as sender): all histories of length D (quick 3, thorough 4) over those 14 symbols + {bad checksum, length byte 9, length byte 255, block truncated after 7 bytes then silence > T1, ENQ then silence > T2} x (equipment passive, host active; thorough adds the two other pairings at depth 3); per step: EOT granted, ACK for every checksum-valid block and NAK (not before T1 resp. T2) for the others, handler deliveries = reference (and justified), State()==Selected, socket open, S9Fx notices of the equipment role received and acknowledged by the peer; then the live clean message. " +
 			"RECEIVE RULE used by ref.e4.Receiver where E4 leaves a choice (taken from the doc comments of secs1/assembler.go, none forbidden by the property): one open message at a time; a block that is neither a duplicate nor the expected block abandons the open message and is then treated as a first block (number 1, or number 0 with the E-bit, opens/completes a new message; anything else is discarded); duplicate = header identical to the last ACCEPTED (appended) block, remembered across message completion; T4 is checked when the next block arrives and is not restarted by discarded blocks. state = history prefix, non-trivial = at least one block transmitted")
@@ -149,6 +149,25 @@ func TestCheck(t *testing.T) {
 					}
 					checkOut(c, t, oc)
 				}
+			}
+		}
+
+		// the E4 size limit: 32767 blocks of 244 bytes go out numbered 1..32767, one byte more is refused
+		for _, equip := range []bool{false, true} {
+			if part != "" && part != "out" {
+				break
+			}
+			for _, L := range []int{maxE4Body, maxE4Body + 1} {
+				if L == maxE4Body && !c.Thorough() && equip {
+					continue // quick: the 32767-block transfer once (host role)
+				}
+				if !c.Next() {
+					continue
+				}
+				if c.Expired() {
+					return
+				}
+				checkOut(c, t, outCase{Equip: equip, Active: !equip, Device: 1, L: L, Msgs: grid[:1]})
 			}
 		}
 
@@ -275,6 +294,10 @@ func checkOut(c *vfw.Ctx, t *testing.T, oc outCase) {
 	nb := 0
 	if st.msgs > 0 {
 		nb = st.blocks / st.msgs
+	}
+	if st.oversize != "" {
+		c.Outcome("out:oversize:nothing-on-the-line:" + st.oversize)
+		return
 	}
 	c.Outcome(fmt.Sprintf("out:%d-blocks", nb))
 	if c.WantSample() && oc.L == 489 && oc.Equip {
